@@ -56,7 +56,15 @@ def run (st : St) (args : List String) : St × String :=
       -- the event the peer sees: the last one (queued is followed by the mailbox's answer)
       let ev := evs.getLast?.getD .dead
       let probes := st.probes + (if (match ev with | .probe _ => true | _ => false) then 1 else 0)
-      ({ st with srv := s1, probes := probes }, s!"{evStr ev} n={probes}")
+      -- a post is never answered: the peer sees nothing, or the connection going away
+      let shown := if f.typ == 4 then
+          (match ev with
+           | .refusedClosed => "closed-without-answer"
+           | .badFrame => "closed-without-answer"
+           | .dead => "dead"
+           | _ => "ignored")
+        else evStr ev
+      ({ st with srv := s1, probes := probes }, s!"{shown} n={probes}")
   | "au.burst" :: _ => (st, "ok")      -- Props/C06.gate: no probe invocation without accepted credentials
   | _ => (st, "bad-op")
 
